@@ -78,6 +78,7 @@ func init() {
 		"(*sync.WaitGroup).Done": modelNoop,
 		"(*sync.WaitGroup).Wait": modelNoop,
 		"strconv.Itoa":           modelUF("itoa"),
+		"reflect.TypeOf":         modelTypeOf,
 		"strings.ToLower":        modelToLower,
 
 		"strings.HasSuffix":                     modelUF("hassuffix"),
@@ -289,6 +290,26 @@ func modelToLower(x *Run, fr *Frame, st *State, fn *ssa.Function, args []Val, si
 	x.d.raw("ax.tolower.idem", fmt.Sprintf("(assert (forall ((s Str)) (! (= (%s (%s s)) (%s s)) :pattern ((%s s)))))", f, f, f, f))
 	x.d.raw("ax.tolower.len", fmt.Sprintf("(assert (forall ((s Str)) (! (= (strlen (%s s)) (strlen s)) :pattern ((%s s)))))", f, f))
 	return single(st, Val{T: app(f, args[0].T), S: SStr, Ty: types.Typ[types.String]})
+}
+
+// reflect.TypeOf(x): a deterministic function of x's dynamic type that is nil
+// exactly when x is the nil interface value - so a method called on the result
+// (Elem, Name, ...) is an obligation when x may be nil (an unexpected message
+// decoded from the body "null").
+func modelTypeOf(x *Run, fr *Frame, st *State, fn *ssa.Function, args []Val, site ssa.Instruction) []Outcome {
+	r := x.ufApply(st, "ext."+x.fnShort(fn), args, fn.Signature.Results())
+	if len(args) == 1 && args[0].S == SIface && r.S == SIface {
+		st.assume(eq(eq(args[0].T, "inil"), eq(r.T, "inil")))
+		// a bare parameter of the function is covered by A-NONNIL (a helper that
+		// inspects the type of its argument has "argument not nil" as its implicit
+		// precondition; transporterImpl.Dispatch has no caller in frp at all); a
+		// value that came out of a call or a decoder may be nil
+		r.NilIface = !strings.HasPrefix(args[0].T, "p_")
+	}
+	if !fr.inPure() {
+		st.events = append(st.events, Event{Name: "call:" + fn.String(), Args: args, Ret: r})
+	}
+	return single(st, r)
 }
 
 func modelNewError(x *Run, fr *Frame, st *State, fn *ssa.Function, args []Val, site ssa.Instruction) []Outcome {
